@@ -4,6 +4,7 @@ import os, subprocess, json, time, shutil
 VERIF = os.path.dirname(os.path.dirname(os.path.abspath(__file__)))
 REPO = os.environ.get("SKA_REPO", "/repo")
 WORK = os.environ.get("SKA_VERIF_WORK", "/var/tmp/ska-verif")
+OUT = os.environ.get("SKA_VERIF_OUT", VERIF)   # where evidence/ and replays/ are written (selftest redirects it)
 VX = os.path.join(VERIF, "tools/vx/target/release/vx")
 
 def width_vars(w):
